@@ -25,6 +25,9 @@ package ops
 //@   assigns nothing
 //@   ensures[C12] err == nil && result != nil && fresh(result)
 //@   ensures[C12] result.SerialNumber == tmpl.Serial && result.Subject.SerialNumber == bigStr(tmpl.Serial) && result.Subject.CommonName == tmpl.SubjectCommonName
+// (no extended-key-usage restriction: the verifier checks the chain without naming a usage, so any restriction on
+// the signing certificate would make endorsements unverifiable under their own root)
+//@   ensures[C03,C12] len(result.ExtKeyUsage) == 0 && len(result.UnknownExtKeyUsage) == 0
 //@   ensures[C12] result.SignatureAlgorithm == 13 && result.PublicKeyAlgorithm == 1 && result.BasicConstraintsValid && result.NotBefore == tmpl.NotBefore && result.Version == 3
 //@   ensures[C12] tmpl.Issuer == nil ==> result.IsCA && result.KeyUsage == 96 && result.MaxPathLenZero && result.NotAfter == timeAdd(tmpl.NotBefore, 9131 * 24 * 3600000000000) && result.Issuer == result.Subject
 //@   ensures[C12] tmpl.Issuer != nil ==> !result.IsCA && result.KeyUsage == 1 && result.NotAfter == timeAdd(tmpl.NotBefore, 1826 * 24 * 3600000000000) && result.Issuer == tmpl.Issuer.Subject
